@@ -604,8 +604,20 @@ class Tracer:
         _r.randint = randint
         # what the mount listing shows: the canonical mount points, or the world's own spellings of them (trailing '/')
         mounts = [os.fsdecode(self.sb.to_real(m)) for m in (self.world.get("mountTable") or self.world.get("mounts", []))]
-        import trashcli.fstab.mount_points_listing as mpl
-        mpl.os_mount_points = lambda: iter(list(mounts))
+        # ... handed out the way the operating system does it: as the partition table psutil reads, each volume with a file
+        # system type - device-backed ones (listed by disk_partitions()), and the network / FUSE / 9p types trash-cli accepts
+        # (listed with all=True only).  The program's own filter (os_mount_points) runs on it.
+        import collections
+        import psutil
+        Part = collections.namedtuple("sdiskpart", ["device", "mountpoint", "fstype", "opts"])
+        kinds = ["ext4", "nfs4", "fuse.gocryptfs", "xfs", "btrfs", "p9", "fuse", "fuse.mergerfs", "fuse.glusterfs", "nfs"]
+        off = len(self.world.get("nodes", [])) % 7
+        table = [Part("/dev/v%d" % k, m, "ext4" if k == 0 else kinds[(k + off) % len(kinds)], "rw") for k, m in enumerate(mounts)]
+        physical = ("ext4", "xfs", "btrfs")
+
+        def disk_partitions(all=False):
+            return [p_ for p_ in table if all or p_.fstype in physical]
+        psutil.disk_partitions = disk_partitions
         # shutil caches function availability; make the fd-based rmtree use our wrappers (it looks os.* up at call time)
 
 
@@ -630,12 +642,42 @@ def child_main(sb, world, plan, wfd, gate=None):
             # a clock that moves on its own: one hour per mutating call issued so far, so that "DeletionDate is the time
             # of trashing" can be told from "some time during this run" (see putcheck: oracle C03w)
             import trashcli.put.clock as _clk
-            _clk.RealClock.now = lambda self: CLOCK_T0 + datetime.timedelta(seconds=CLOCK_STEP * tracer.count)
+            if not world.get("opts", {}).get("realPutClock"):
+                _clk.RealClock.now = lambda self: CLOCK_T0 + datetime.timedelta(seconds=CLOCK_STEP * tracer.count)
+            # (realPutClock: the program's own clock, in the time zone of the world's TZ - see putcheck, oracle C03w)
+        if plan.get("nofile"):
+            # a small allowance of open files: a descriptor that is opened must be closed again, however the entry looks
+            import resource
+            soft, hard = resource.getrlimit(resource.RLIMIT_NOFILE)
+            resource.setrlimit(resource.RLIMIT_NOFILE, (min(plan["nofile"], hard), hard))
         os.chdir(sb.to_real(world.get("cwd", MODEL_ROOT)))
         sys.argv = ["trash-" + world["cmd"]] + [os.fsdecode(sb.to_real(a)) for a in world.get("argv", [])]
         out_b, err_b = io.BytesIO(), io.BytesIO()
         sys.stdout = io.TextIOWrapper(out_b, encoding="utf-8", errors="surrogateescape", write_through=True)
         sys.stderr = io.TextIOWrapper(err_b, encoding="utf-8", errors="surrogateescape", write_through=True)
+        if plan.get("stdout_fault"):
+            # one write to stdout fails (a reader that went away, a full disk), the others succeed
+            so = plan["stdout_fault"]
+            real_out = sys.stdout
+
+            class FaultyStdout:
+                encoding, errors = "utf-8", "surrogateescape"
+
+                def __init__(self):
+                    self.n = 0
+
+                def write(self, text):
+                    self.n += 1
+                    if self.n - 1 == so["only"]:
+                        raise OSError(getattr(errno_mod, so.get("errno", "EPIPE")), "stdout write failed (injected)")
+                    return real_out.write(text)
+
+                def flush(self):
+                    return real_out.flush()
+
+                def isatty(self):
+                    return False
+            sys.stdout = FaultyStdout()
         harness_err = sys.stderr
         if plan.get("stderr_fault"):
             # the diagnostics go to a full disk or a closed pipe: the n-th write to stderr fails (and every later one)
@@ -651,6 +693,17 @@ def child_main(sb, world, plan, wfd, gate=None):
                 def write(self, text):
                     self.n += 1
                     if self.n > sf["nth"]:
+                        if sf.get("pipe"):
+                            # a real pipe whose reader is gone: EPIPE for a program that ignores SIGPIPE (as Python does),
+                            # death for one that asked for the default action
+                            if not hasattr(self, "w"):
+                                r_, self.w = os.pipe()
+                                os.close(r_)
+                            tracer.internal += 1
+                            try:
+                                return tracer.orig.get("write", os.write)(self.w, text.encode("utf-8", "surrogateescape"))
+                            finally:
+                                tracer.internal -= 1
                         raise OSError(getattr(errno_mod, sf["errno"]), os.strerror(getattr(errno_mod, sf["errno"])))
                     return real_err.write(text)
 
@@ -662,7 +715,7 @@ def child_main(sb, world, plan, wfd, gate=None):
 
                 def fileno(self):
                     raise io.UnsupportedOperation("fileno")
-            sys.stderr = FaultyStderr()
+            sys.stderr = None if sf.get("closed") else FaultyStderr()
         stdin = world.get("stdin")
         sys.stdin = io.TextIOWrapper(io.BytesIO(stdin if stdin is not None else b""), encoding="utf-8",
                                      errors="surrogateescape")
@@ -745,9 +798,14 @@ def run_world(world, plan=None, keep=None, facts=None):
         os.close(rfd)
         _, status = os.waitpid(pid, 0)
         raw = b"".join(chunks)
-        if not raw:
+        if not raw and (plan or {}).get("stderr_fault", {}).get("pipe") and os.WIFSIGNALED(status):
+            # the program let a signal kill it (SIGPIPE at a write to the closed pipe): what it left behind is the outcome
+            res = {"exit": "signal:%d" % os.WTERMSIG(status), "exc": None, "stdout": "", "stderr": "", "trace": [], "escapes": [],
+                   "states": [], "t0": 0, "t1": 0}
+        elif not raw:
             raise MachineryError("child died without a report (status %r)" % status)
-        res = json.loads(raw)
+        else:
+            res = json.loads(raw)
         if "machinery" in res:
             raise MachineryError("harness failure in child: " + res["machinery"])
         after = sb.snapshot()
